@@ -550,6 +550,45 @@ impl Heap {
     }
 }
 
+
+/// Verification hooks (cargo feature `verif-hooks`, off by default): raw construction and
+/// inspection of heap states for the step lemmas checked under /verif. Add-only.
+#[cfg(feature = "verif-hooks")]
+impl Heap {
+    /// Overwrite the cell at `idx` and its gc state, bypassing alloc/put. Symbols are interned.
+    pub fn verif_set_cell(&mut self, idx: usize, vcell: VCell, state: State) {
+        if let VCell::Symbol(sym) = &vcell {
+            if state != State::Free {
+                self.symbol_table.insert(sym.deref().into(), idx);
+            }
+        }
+        *self.heap.get_mut(idx).expect("verif index") = vcell;
+        self.heap_map.set(idx, state);
+    }
+
+    pub fn verif_set_free_list(&mut self, free_list: Vec<usize>) {
+        self.free_list = free_list;
+    }
+
+    pub fn verif_free_list(&self) -> &[usize] {
+        &self.free_list
+    }
+
+    pub fn verif_state(&self, idx: usize) -> Option<State> {
+        self.heap_map.get(idx)
+    }
+
+    pub fn verif_symbol_table(&self) -> Vec<(String, usize)> {
+        let mut v: Vec<(String, usize)> = self
+            .symbol_table
+            .iter()
+            .map(|(k, v)| (k.clone(), *v))
+            .collect();
+        v.sort();
+        v
+    }
+}
+
 #[cfg(test)]
 mod tests {
     use super::*;
